@@ -1,7 +1,7 @@
 """C03 - SMILES -> SELFIES -> SMILES preserves the molecule atom for atom."""
 from vmon import env, hooks, scopes, tablegen
 from vmon.hooks import MON
-from vmon.molgen import random_tree_mol, spell, macrocycle, from_read, GAtom
+from vmon.molgen import random_tree_mol, spell, macrocycle, from_read, GAtom, symbol_family_smiles
 from vmon.aromgen import standard_system, link_systems, pi_set, single_ring_bonds
 from vmon.matching import exact_pm
 from vmon.roundtrip import roundtrip
@@ -26,7 +26,7 @@ def shards(tier):
 
 def floors(tier):
     return {"roundtrips_ok": 5000, "M1.encoder_graphs": 5000, "M2.writes": 5000, "span>=17": 20,
-            "span>=257": 4, "dataset_ok": 300, "respelled_ok": 300, "mixed_label_spellings": 50, "loosened_table_molecules": 500, "encoder_rejects": 100, "aromatic_roundtrips_ok": 300}
+            "span>=257": 4, "dataset_ok": 300, "respelled_ok": 300, "mixed_label_spellings": 50, "loosened_table_molecules": 500, "encoder_rejects": 100, "aromatic_roundtrips_ok": 300, "symbol_family_ok": 150}
 
 
 def _nontrivial(m):
@@ -128,6 +128,10 @@ def run(ctx):
             # the canonical spelling whose ring span is exactly n-1
             s = "C1" + "C" * (n - 2) + "C1" + "O" * (blen and 1)
             case(s, table, "default", "macrocycle-linear")
+
+    for s, tag in list(symbol_family_smiles(rng))[ctx.shard::ctx.nshards]:
+        if case(s, table, "default", "symbol-family:" + tag, check_stereo=True) == "ok":
+            ctx.count("symbol_family_ok")
 
     # --- dataset molecules: original spelling (with stereo) and two re-spellings
     t = dict(tablegen.PRESETS["hypervalent"], **{"P": 7, "P-1": 8, "P+1": 6, "?": 12})
